@@ -1,9 +1,11 @@
 """C19 - tab-delimited output is a faithful table of the results (decided structural clauses).
 
-R1 permutation        : the series list is a permutation of the keys: each priority `append` is paired with a `remove`
-                        of the same name under the membership test; the remainder is sorted; both parts are returned.
-R2 same sequence      : header and every row iterate the same sequence; the row count is the `min` of the lengths;
-                        each cell is `format % (value,)` with the *parameter* format; cells/rows joined by tab/newline.
+R1 permutation        : the ordering helper is evaluated in a small list algebra (sfcv/listalg.py): every returning path
+                        must yield [stored priority names, in priority order] + [the other stored names, sorted]; the
+                        priority order itself is one literal of distinct names (the same for every holder).
+R2 same table         : the renderer is evaluated to a canonical table term (sfcv/tableterm.py): header line = the
+                        tab-joined column sequence, then one line per i in range(0, min length) holding
+                        `format % (self[v][i],)` for v in the same sequence; compared up to bound-variable names.
 R3 horizon+1 rows     : the solve loop runs range(1, MaxTime+1) and every partition is appended once per step
                         (same formulation as C10.R1 / C10.R2)."""
 import ast
@@ -16,12 +18,14 @@ from ..solver_model import solver_function
 from .C10 import check_bounds
 from .C16 import discover_accessors
 
-TECHNIQUE = ('static analysis: path pairing of append/remove under membership facts (or the compound sort key) in the ordering helper, same-sequence and bound=min checks over iteration sites (for statements and comprehensions) with temporaries resolved, parameter flow of the cell format, pass-through check of wrappers')
+TECHNIQUE = ('static analysis: abstract evaluation of the ordering helper in a list algebra over (order, membership) segments; symbolic evaluation of the renderer to a canonical table term (map fusion of comprehensions, append loops and += accumulation; alpha-equivalence with the stated table); parameter flow of the cell format; pass-through check of wrappers; loop-bound facts of the solve loop')
 EXPLANATION = (
-    'The ordering helper is shown to return a permutation (append and remove of the same name are paired on every path, '
-    'under the membership test, remainder sorted, both parts concatenated); the renderer iterates one and the same sequence '
-    'for header and rows, bounds the rows by the minimum length and formats each cell with the caller-supplied format applied '
-    'to a 1-tuple; the horizon+1 row count follows from the solve loop bound. Round-trip precision of values is not decided.')
+    'The ordering helper is evaluated abstractly: lists are concatenations of (order, membership predicate) segments over '
+    'the atoms "is a stored name" / "is a priority name", loops that append / remove the loop element under membership tests '
+    'are applied exactly, and every returning path must yield the stated order. The renderer is evaluated symbolically to a '
+    'term in which comprehensions, append loops and text accumulation are all maps; the returned text is cut into line groups '
+    'and must equal header + one line of `format % (value,)` cells per period up to the shortest series, for the same column '
+    'sequence. The horizon+1 row count follows from the solve loop bound. Round-trip precision of values is not decided.')
 
 
 def _is_priority(e):
@@ -88,97 +92,88 @@ def order_helper(check, h):
     if len(rets) == 1 and isinstance(rets[0].value, ast.Call) and call_name(rets[0].value) == 'sorted' and rets[0].value.args and \
             'self' in unparse(rets[0].value.args[0]) and any(k.arg == 'key' for k in rets[0].value.keywords):
         return order_by_sort_key(check, h, rets[0].value, subst)
-    if len(rets) != 1 or not (isinstance(rets[0].value, ast.BinOp) and isinstance(rets[0].value.op, ast.Add)):
-        raise AnalysisError('ordering helper: the result is not `priority part + rest`')
-    A, B = rets[0].value.left, rets[0].value.right
+    from ..listalg import ListEval, EXPECTED, norm, seg_text
+    le = ListEval(h.node)
+    results = le.run()
+    if not results:
+        raise AnalysisError('ordering helper: no returning path')
+    pri_bad, rest_bad, shape_bad = [], [], []
+    for segs, feasible, line, note in results:
+        where = '%s:%d' % (h.module.rel, line)
+        if segs is None:
+            shape_bad.append((where, 'the list returned here cannot be followed (%s)' % note))
+            continue
+        exp = norm(EXPECTED, feasible)
+        pri = tuple(sg for sg in segs if sg[1] & frozenset([(True, True), (False, True)]) and not sg[1] - frozenset([(True, True), (False, True)]))
+        exp_pri = tuple(sg for sg in exp if sg[0] == 'P')
+        # leading part: everything up to the first segment that holds a non-priority name
+        lead = []
+        for sg in segs:
+            if sg[1] - frozenset([(True, True), (False, True)]):
+                break
+            lead.append(sg)
+        tail = segs[len(lead):]
+        if tuple(lead) != exp_pri:
+            pri_bad.append((where, 'the leading columns are %s, required %s' % (seg_text(lead), seg_text(exp_pri))))
+        exp_rest = tuple(sg for sg in exp if sg[0] != 'P')
+        if tuple(tail) != exp_rest:
+            rest_bad.append((where, 'after the priority columns come %s, required %s' % (seg_text(tail), seg_text(exp_rest))))
+    for line, msg in le.problems:
+        shape_bad.append(('%s:%d' % (h.module.rel, line), msg))
+    wit = "a holder with 'iteration', 'iteration_error', 'iteration_abs_change', 'k' and 't' (the step trace)"
+    check.ob('C19.R1', '%s::priority-part' % h.key, not pri_bad, pri_bad[0][0] if pri_bad else h.where,
+             'on every returning path the leading columns are the stored priority names in priority order' if not pri_bad else
+             '; '.join(sorted({x[1] for x in pri_bad}))[:500], wit)
+    check.ob('C19.R1', '%s::rest-sorted-without-priority' % h.key, not rest_bad, rest_bad[0][0] if rest_bad else h.where,
+             'on every returning path the rest is the other stored names, sorted, each once' if not rest_bad else
+             '; '.join(sorted({x[1] for x in rest_bad}))[:500], 'many names: each stored series exactly once, the rest alphabetically')
+    check.ob('C19.R1', '%s::returns-priority-then-rest' % h.key, not shape_bad, shape_bad[0][0] if shape_bad else h.where,
+             '%d returning path(s) evaluated in the list algebra' % len(results) if not shape_bad else
+             '; '.join(sorted({x[1] for x in shape_bad}))[:500], wit)
 
-    def resolve(e):
-        return subst.get(e.id, e) if isinstance(e, ast.Name) else e
-    loops = [n for n in ast.walk(h.node) if isinstance(n, ast.For)]
-    # all keys, sorted: some name is assigned sorted(self.keys()) / list(self.keys()) followed by .sort()
-    sorted_names = set()
-    for n in ast.walk(h.node):
-        if isinstance(n, ast.Assign) and isinstance(n.targets[0], ast.Name):
-            v = n.value
-            if isinstance(v, ast.Call) and call_name(v) == 'sorted' and v.args and 'self' in unparse(v.args[0]):
-                sorted_names.add(n.targets[0].id)
-        if isinstance(n, ast.Call) and call_name(n) == 'sort' and isinstance(n.func.value, ast.Name):
-            src = subst.get(n.func.value.id)
-            if src is not None and 'self' in unparse(src) and ('keys' in unparse(src) or unparse(src) in ('list(self)',)):
-                sorted_names.add(n.func.value.id)
-    ra, rb = resolve(A), resolve(B)
-    # ---- priority part ------------------------------------------------------------------------------
-    pri_ok, pri_why = False, 'priority part not recognised'
-    paired, guarded = True, True
-    if isinstance(ra, ast.ListComp):
-        gen = ra.generators[0]
-        from_priority = _is_priority(gen.iter)
-        filt = any(isinstance(c, ast.Compare) and isinstance(c.ops[0], ast.In) and isinstance(c.left, ast.Name)
-                   and c.left.id == target_names(gen.target)[0] for c in gen.ifs)
-        pri_ok = from_priority and filt and isinstance(ra.elt, ast.Name) and ra.elt.id == target_names(gen.target)[0]
-        pri_why = ('priority names are taken in SortPriority order, filtered by presence' if pri_ok else
-                   'the leading columns are produced by iterating %s: they come out in that order, not in the documented priority order'
-                   % unparse(gen.iter))
-    elif isinstance(A, ast.Name) and len(loops) == 1:
-        loop = loops[0]
-        x = target_names(loop.target)[0]
-        hdr = [n for n in g.nodes if n.kind == 'for' and n.stmt is loop][0]
-        apps = [n for n in g.stmt_nodes() if n.kind == 'stmt' and loop in n.loops and any(
-            isinstance(c, ast.Call) and call_name(c) == 'append' and unparse(c.func.value) == A.id and c.args
-            and isinstance(c.args[0], ast.Name) and c.args[0].id == x for c in ast.walk(n.ast))]
-        rems = [n for n in g.stmt_nodes() if n.kind == 'stmt' and loop in n.loops and any(
-            isinstance(c, ast.Call) and call_name(c) == 'remove' and c.args and isinstance(c.args[0], ast.Name) and c.args[0].id == x
-            for c in ast.walk(n.ast))]
-        first = [b for b, lab in g.succ[hdr.id] if lab is True]
-        paths = []
-        for b in first:
-            paths += g.paths(b, hdr, cap=5000) if b != hdr.id else []
-        paired = bool(paths) and bool(apps) and bool(rems)
-        for p in paths:
-            na = sum(1 for i in p if g.nodes[i] in apps)
-            nr = sum(1 for i in p if g.nodes[i] in rems)
-            if na != nr or na > 1:
-                paired = False
-        removed_from = None
-        for n in rems:
-            for c in ast.walk(n.ast):
-                if isinstance(c, ast.Call) and call_name(c) == 'remove':
-                    removed_from = unparse(c.func.value)
-        def member_fact(n):
-            for test, outcome in g.conditions_at(n):
-                for _, v, e in atomic_facts(test, outcome):
-                    if v is True and isinstance(e, ast.Compare) and len(e.ops) == 1 and isinstance(e.ops[0], ast.In) and \
-                            isinstance(e.left, ast.Name) and e.left.id == x and unparse(e.comparators[0]) == removed_from:
-                        return True
-            return False
-        guarded = bool(apps + rems) and all(member_fact(n) for n in apps + rems)
-        pri_ok = _is_priority(loop.iter) and paired and guarded
-        pri_why = ('priority names are moved (append + remove, under membership) in SortPriority order' if pri_ok else
-                   'priority loop: source=%s paired=%s membership-guard=%s' % (unparse(loop.iter), paired, guarded))
-        rest_is_removed_list = isinstance(B, ast.Name) and B.id == removed_from
-    check.ob('C19.R1', '%s::priority-part' % h.key, pri_ok, h.where, pri_why,
-             "a holder with 'iteration', 'iteration_error', 'iteration_abs_change', 'k' and 't' (the step trace)")
-    # ---- rest -----------------------------------------------------------------------------------------
-    rest_ok, rest_why = False, 'remainder not recognised'
-    if isinstance(rb, ast.ListComp):
-        gen = rb.generators[0]
-        src_sorted = isinstance(gen.iter, ast.Name) and gen.iter.id in sorted_names or \
-            (isinstance(gen.iter, ast.Call) and call_name(gen.iter) == 'sorted')
-        excl = any(isinstance(c, ast.Compare) and isinstance(c.ops[0], ast.NotIn) and
-                   (_is_priority(c.comparators[0]) or unparse(c.comparators[0]) == unparse(A)) for c in gen.ifs)
-        rest_ok = bool(src_sorted) and excl and len(gen.ifs) == 1
-        rest_why = 'the rest = sorted keys not in the priority list' if rest_ok else 'the rest is %s' % unparse(rb)
-    elif isinstance(B, ast.Name):
-        rest_ok = B.id in sorted_names and (not isinstance(ra, ast.ListComp))
-        if isinstance(ra, ast.ListComp):
-            rest_ok = False
-            rest_why = 'the rest `%s` still contains the priority names (duplicated columns)' % B.id
-        else:
-            rest_why = 'the rest = the sorted key list after the priority names were removed' if rest_ok else \
-                'the remainder `%s` is not the sorted list of all keys' % B.id
-    check.ob('C19.R1', '%s::rest-sorted-without-priority' % h.key, rest_ok, h.where, rest_why,
-             'many names: each stored series exactly once, the rest alphabetically')
-    check.ob('C19.R1', '%s::returns-priority-then-rest' % h.key, True, h.where, 'returns %s + %s' % (unparse(A), unparse(B)), '')
+
+def priority_is_fixed(prog, check, h):
+    """the priority order is the same for every holder: one writer, a literal of distinct constants"""
+    writers = []
+    for f in prog.all_functions():
+        for n in ast.walk(f.node):
+            if isinstance(n, ast.Assign):
+                for t in n.targets:
+                    if isinstance(t, ast.Attribute) and t.attr == 'SortPriority':
+                        writers.append((f, n))
+            elif isinstance(n, ast.AugAssign) and isinstance(n.target, ast.Attribute) and n.target.attr == 'SortPriority':
+                writers.append((f, n))
+    cls_level = []
+    if h.cls is not None:
+        for c in h.cls.mro:
+            node = getattr(c, 'node', None)
+            if node is None:
+                continue
+            for st in node.body:
+                if isinstance(st, ast.Assign) and any(isinstance(t, ast.Name) and t.id == 'SortPriority' for t in st.targets):
+                    cls_level.append((c, st))
+    vals = [n.value for f, n in writers if isinstance(n, ast.Assign)] + [st.value for c, st in cls_level]
+    ok, why = True, ''
+    if not vals:
+        ok, why = False, 'no definition of the priority order found'
+    if any(isinstance(n, ast.AugAssign) for f, n in writers):
+        ok, why = False, 'the priority order is extended in place'
+    for v in vals:
+        if isinstance(v, ast.Name):
+            mod = h.module
+            for st in mod.tree.body:
+                if isinstance(st, ast.Assign) and any(isinstance(t, ast.Name) and t.id == v.id for t in st.targets):
+                    v = st.value
+        if not (isinstance(v, (ast.Tuple, ast.List)) and all(isinstance(e, ast.Constant) and isinstance(e.value, str) for e in v.elts)):
+            ok, why = False, 'the priority order `%s` is not a literal of names: it differs between holders' % unparse(v)[:80]
+        elif len({e.value for e in v.elts}) != len(v.elts):
+            ok, why = False, 'the priority order names a column twice'
+    if len(vals) > 1 and len({unparse(v) for v in vals}) > 1:
+        ok, why = False, 'the priority order has %d different definitions' % len(vals)
+    where = ('%s:%d' % (writers[0][0].module.rel, writers[0][1].lineno)) if writers else h.where
+    check.ob('C19.R1', '%s::priority-order-is-one-literal' % h.key, ok, where,
+             'the priority order is one literal of distinct names, the same for every holder' if ok else why,
+             'the step-trace holder vs the main holder: same leading columns')
 
 
 def iteration_sites(fn_node):
@@ -213,78 +208,71 @@ def run(prog, check):
     check.saw(h)
     # ---- R1 ----------------------------------------------------------------------------------------
     order_helper(check, h)
+    priority_is_fixed(prog, check, h)
     # ---- R2 ----------------------------------------------------------------------------------------
-    rs = single_assign_subst(r.node)
-    seqs = [k for k, v in rs.items() if isinstance(v, ast.Call) and call_name(v) == h.name]
-    if len(seqs) != 1:
-        raise AnalysisError('renderer: the column sequence is not a single-assignment of the ordering helper')
-    seq = seqs[0]
-    header_ok = False
-    for n in ast.walk(r.node):
-        if isinstance(n, ast.Call) and call_name(n) == 'join' and isinstance(n.func.value, ast.Constant) and n.func.value.value == '\t' \
-                and n.args and isinstance(n.args[0], ast.Name) and n.args[0].id == seq:
-            header_ok = True
-    check.ob('C19.R2', '%s::header-from-sequence' % r.key, header_ok, r.where,
-             'header row joins `%s` by tabs' % seq if header_ok else 'header is not the tab-join of the column sequence', 'any names')
-    sites = iteration_sites(r.node)
-    row_loops = [st for st in sites if isinstance(st[1], ast.Name) and st[1].id == seq]
-    cell_ok = False
-    for targets, it, scope, node in row_loops:
-        v = targets[0]
-        # the enclosing iteration over the row index
-        outer = None
-        for t2, it2, scope2, node2 in sites:
-            if node2 is not node and any(x is node or x is scope for x in ast.walk(scope2)) and \
-                    isinstance(it2, ast.Call) and call_name(it2) == 'range':
-                outer = t2
-        if outer is None:
-            continue
-        i = outer[0]
-        for c in ast.walk(scope):
-            if isinstance(c, ast.Subscript) and isinstance(c.value, ast.Subscript) and unparse(c.value.value) == 'self' and \
-                    unparse(c.value.slice) == v and unparse(c.slice) == i:
-                cell_ok = True
-    check.ob('C19.R2', '%s::rows-iterate-same-sequence' % r.key, bool(row_loops) and cell_ok, r.where,
-             'each row reads self[v][i] for v in `%s`' % seq if (row_loops and cell_ok) else
-             'rows do not iterate the header sequence with matching series/index', 'ragged / many series')
-    # row bound = min of lengths over all values
-    bound_ok = False
-    bound_txt = ''
-    for targets_, it_, scope_, n in sites:
-        if isinstance(it_, ast.Call) and call_name(it_) == 'range':
-            hi = it_.args[-1] if len(it_.args) <= 2 else it_.args[1]
-            lo_ok = len(it_.args) == 1 or lin_eq(linform(it_.args[0]), {'': 0})
-            e = resolve_expr(hi, rs)
-            bound_txt = unparse(e)
-            if isinstance(e, ast.Call) and call_name(e) == 'min' and lo_ok:
-                inner = e.args[0] if e.args else None
-                if inner is not None and any(isinstance(c, ast.Call) and call_name(c) == 'len' for c in ast.walk(inner)) and \
-                        'self' in unparse(inner):
-                    bound_ok = True
-    check.ob('C19.R2', '%s::row-count-is-min-length' % r.key, bound_ok, r.where,
-             'rows = range(0, %s)' % bound_txt, 'ragged series: one row per period up to the shortest series (no IndexError, no dropped rows)')
+    from ..tableterm import TableEval, line_groups, expected_groups, alpha_eq, show, SEQ
     fmt_param = [p for p in r.params() if 'format' in p.lower()]
-    fmt_ok = False
-    for n in ast.walk(r.node):
-        if isinstance(n, ast.BinOp) and isinstance(n.op, ast.Mod) and isinstance(n.left, ast.Name) and n.left.id in fmt_param and \
-                isinstance(n.right, ast.Tuple) and len(n.right.elts) == 1:
-            fmt_ok = True
-    check.ob('C19.R2', '%s::cell-format-is-parameter' % r.key, fmt_ok, r.where,
-             'each cell is `%s %% (x,)`' % (fmt_param[0] if fmt_param else '?') if fmt_ok else
-             'cells are not formatted with the caller-supplied format applied to a 1-tuple', "format '%.12g' / tuple-valued cells")
-    rowjoin = sum(1 for n in ast.walk(r.node) if isinstance(n, ast.Call) and call_name(n) == 'join' and
-                  isinstance(n.func.value, ast.Constant) and n.func.value.value == '\t')
-    nl = sum(1 for n in ast.walk(r.node) if isinstance(n, ast.Constant) and n.value == '\n')
-    check.ob('C19.R2', '%s::tab-and-newline' % r.key, rowjoin >= 2 and nl >= 2, r.where,
-             'header and rows are tab-joined and newline-terminated', 'parsing the text back')
-    # cells are joined as formatted: no further text surgery on the formatted cells
-    surgery = [c for c in ast.walk(r.node) if isinstance(c, ast.Call) and isinstance(c.func, ast.Attribute) and
-               c.func.attr in ('rstrip', 'lstrip', 'strip', 'replace', 'zfill', 'ljust', 'rjust', 'center', 'lower', 'upper', 'split', 'format')
-               and not (isinstance(c.func.value, ast.Constant))]
-    check.ob('C19.R2', '%s::cells-joined-as-formatted' % r.key, not surgery, '%s:%d' % (r.module.rel, surgery[0].lineno) if surgery else r.where,
-             'formatted cells are joined unchanged' if not surgery else
-             'formatted cells are rewritten by `%s` before they are joined: the text no longer parses back to the value in the requested format'
-             % unparse(surgery[0])[:60], "exponent notation: '1.5e+10'.rstrip('0') is '1.5e+1'")
+    if len(fmt_param) != 1:
+        raise AnalysisError('renderer: the cell format parameter cannot be identified (%s)' % fmt_param)
+    te = TableEval(r.node, h.name, fmt_param)
+    rets = te.run(r.params())
+    if not rets:
+        raise AnalysisError('renderer: no returning path')
+    exp = expected_groups(fmt_param[0])
+    bad = {k: [] for k in ('header-from-sequence', 'rows-iterate-same-sequence', 'row-count-is-min-length', 'cell-format-is-parameter',
+                           'tab-and-newline', 'cells-joined-as-formatted', 'empty-table')}
+    for term, assum, line in rets:
+        where = '%s:%d' % (r.module.rel, line)
+        if assum.get('empty') is True:
+            if term != ('str', ''):
+                bad['empty-table'].append((where, 'without series the text is %s' % show(term)[:120]))
+            continue
+        groups = line_groups(term) if term[0] in ('cat', 'str', 'join', 'rep') else None
+        if groups is None:
+            bad['tab-and-newline'].append((where, 'the text returned here is not a sequence of newline-terminated lines built from the series: %s' % show(term)[:200]))
+            continue
+        if not groups or not alpha_eq(groups[0], exp[0]):
+            bad['header-from-sequence'].append((where, 'first line is `%s`, required the tab-joined column sequence' % (show(groups[0])[:160] if groups else 'missing')))
+        rows = [g_ for g_ in groups[1:] if g_[0] == 'lines']
+        if len(groups) != 2 or len(rows) != 1:
+            bad['cells-joined-as-formatted'].append((where, 'the text has the line groups %s, required header + one line per period' % [show(g_)[:80] for g_ in groups]))
+            continue
+        row = rows[0]
+        body = row[2]
+        per_col = body[0] == 'join' and body[1] == ('str', '\t') and body[2][0] == 'map' and body[2][3] == SEQ
+        if body[0] == 'join' and body[1] != ('str', '\t'):
+            bad['tab-and-newline'].append((where, 'cells are joined by %s' % show(body[1])))
+        elif not per_col:
+            bad['rows-iterate-same-sequence'].append((where, 'a row is `%s`: it does not hold one cell per column of the header sequence' % show(body)[:200]))
+        if not alpha_eq(row[3], exp[1][3]):
+            bad['row-count-is-min-length'].append((where, 'rows run over `%s`, required range(0, min length of all series)' % show(row[3])[:160]))
+        if per_col:
+            cell = body[2][2]
+            want = ('fmt', ('param', fmt_param[0]), ('cell', body[2][1], row[1]))
+            if cell != want:
+                if cell[0] == 'fmt' and cell[1] == want[1] and cell[2][0] == 'cell' and cell[2] != want[2]:
+                    bad['rows-iterate-same-sequence'].append((where, 'the cell of column a, row b is `%s`' % show(cell)[:160]))
+                elif cell[0] in ('fmt', 'fmt1') and cell[2] == want[2]:
+                    bad['cell-format-is-parameter'].append((where, 'a cell is `%s`, required `%s %% (value,)`' % (show(cell)[:160], fmt_param[0])))
+                else:
+                    bad['cells-joined-as-formatted'].append((where, 'a cell is `%s`, required `%s %% (value,)` unchanged' % (show(cell)[:160], fmt_param[0])))
+    good = {'header-from-sequence': 'the first line is the tab-joined column sequence',
+            'rows-iterate-same-sequence': 'every row holds, for each column of the header sequence in that order, the value of that series at the row index',
+            'row-count-is-min-length': 'rows = range(0, min(len of every stored series))',
+            'cell-format-is-parameter': 'each cell is `%s %% (value,)`' % fmt_param[0],
+            'tab-and-newline': 'cells are tab-joined, every line newline-terminated',
+            'cells-joined-as-formatted': 'the text is exactly header + one line of formatted cells per period',
+            'empty-table': 'without series the text is empty'}
+    wit = {'header-from-sequence': 'any names', 'rows-iterate-same-sequence': 'ragged / many series',
+           'row-count-is-min-length': 'ragged series: one row per period up to the shortest series (no IndexError, no dropped rows)',
+           'cell-format-is-parameter': "format '%.12g' / tuple-valued cells", 'tab-and-newline': 'parsing the text back',
+           'cells-joined-as-formatted': "exponent notation: '1.5e+10'.rstrip('0') is '1.5e+1'", 'empty-table': 'a holder without series'}
+    for k in ('header-from-sequence', 'rows-iterate-same-sequence', 'row-count-is-min-length', 'cell-format-is-parameter',
+              'tab-and-newline', 'cells-joined-as-formatted', 'empty-table'):
+        b_ = bad[k]
+        check.ob('C19.R2', '%s::%s' % (r.key, k), not b_, b_[0][0] if b_ else r.where,
+                 good[k] if not b_ else '; '.join(sorted({x[1] for x in b_}))[:600], wit[k])
+    check.note('C19.R2 %s: %d returning paths evaluated to table terms' % (r.qualname, len(rets)))
     # every other method of that name is a plain pass-through to this renderer (no remembered text)
     for fo in prog.all_functions():
         if fo.name == r.name and fo is not r and fo.key != r.key and '/deprecated/' not in fo.module.rel and fo not in acc['wrapper'] \
